@@ -78,6 +78,45 @@ def dForm (st : St) (d : RDef) (S : Nat) (r : Rxn Rat) : Rat := dHcore st.pkg d.
 def scaleOf (pkg : Pkg Rat) (S : Nat) (n : List Rat) (extra : List Rat) : Rat :=
   sumN (fun s => absR (get pkg.hf (s % pkg.N) * get n s)) S + (extra.map absR).foldl (· + ·) 0
 
+/-! ### float-level fragility of the feasibility decision
+
+The real code evaluates the routed computation in binary64; the model evaluates it exactly.  `magSys` adds up, per
+species, the magnitudes of everything summed on the way to the raw result (`|m_s| + Σ_k |extent_k·ν_k,s|`); a float
+evaluation stays within `e_s = 8·(K+1)·2⁻⁵³·mag_s` of the exact entry (K reactions, ≤ 5 roundings each, plus the mass
+routing).  The decision `Σ negatives < −1e-12` is *fragile* when entries perturbed by at most `e_s` can decide it either
+way; only then may the real call raise while the exact model returns (or the reverse). -/
+
+def magOne (S : Nat) (ext : Rat) (r : Rxn Rat) (mag : List Rat) : List Rat :=
+  tab S (fun s => get mag s + absR (ext * get r.nu s))
+
+def magBlock (S : Nat) : Block Rat → List Rat × List Rat → List Rat × List Rat
+  | .single r, (m, mag) => (applyOne S r m, magOne S (get m r.r * r.X) r mag)
+  | .par rs, (m, mag) => (applyPar S m rs m, rs.foldl (fun g r => magOne S (get m r.r * r.X) r g) mag)
+  | .ser rs, (m, mag) => rs.foldl (fun p r => (applyOne S r p.1, magOne S (get p.1 r.r * r.X) r p.2)) (m, mag)
+
+def magSys (S : Nat) (bs : List (Block Rat)) (m : List Rat) : List Rat :=
+  (bs.foldl (fun p b => magBlock S b p) (m, tab S (fun s => absR (get m s)))).2
+
+structure Lenient where
+  n' : List Rat            -- flows after clamping (also given when the exact decision is "infeasible" but fragile)
+  exactInfeasible : Bool
+  fragile : Bool
+  lo : Rat
+  hi : Rat
+
+def reactLenient (pkg : Pkg Rat) (basis : Basis) (S : Nat) (bs : List (Block Rat)) (K : Nat) (n : List Rat) : Lenient :=
+  let m := toBasis pkg basis S n
+  let raw := applySys S bs m
+  let mag := magSys S bs m
+  let u : Rat := (8 * ((K : Rat) + 1)) / (9007199254740992 : Rat)
+  let lo := sumN (fun s => let v := get raw s - u * get mag s; if v < 0 then v else 0) S
+  let hi := sumN (fun s => let v := get raw s + u * get mag s; if v < 0 then v else 0) S
+  { n' := fromBasis pkg basis S (clamp S raw), exactInfeasible := decide (negSum S raw < -tolF),
+    fragile := decide (lo < -tolF) != decide (hi < -tolF), lo := lo, hi := hi }
+
+def fragileSuffix (l : Lenient) : String :=
+  if l.fragile then s!" fragile=1 exact={if l.exactInfeasible then "infeasible" else "ok"} lo={showRat l.lo} hi={showRat l.hi}" else ""
+
 def step (st : St) (line : String) : St × String :=
   match splitWs line with
   | "pkg" :: n :: rest =>
@@ -138,9 +177,9 @@ def step (st : St) (line : String) : St × String :=
       match allDH st d with
       | .error e => (st, showErr e)
       | .ok () =>
-        match reactStream tolF st.pkg d.basis S d.blocks n with
-        | .error e => (st, showErr e)
-        | .ok n' =>
+        let l := reactLenient st.pkg d.basis S d.blocks d.members.length n
+        if l.exactInfeasible && !l.fragile then (st, showErr .infeasible) else
+          let n' := l.n'
           let m := toBasis st.pkg d.basis S n
           let raw := applySys S d.blocks m
           let heat := heatSys (dFull st d) S d.blocks m
@@ -151,16 +190,19 @@ def step (st : St) (line : String) : St × String :=
           let clamped := clamp S raw != tab S (fun s => get raw s)
           let chk := if clamped then "clamped" else if dHnet == form + (H1 - H0) then "ok" else "BROKEN"
           let sc := scaleOf st.pkg S n [H0, H1] + scaleOf st.pkg S n' []
-          (st, s!"n={showRats n'} Hf0={showRat Hf0} Hf1={showRat Hf1} heat={showRat heat} form={showRat form} dHnet={showRat dHnet} sc={showRat sc} chk={chk}")
+          (st, s!"n={showRats n'} Hf0={showRat Hf0} Hf1={showRat Hf1} heat={showRat heat} form={showRat form} dHnet={showRat dHnet} sc={showRat sc} chk={chk}{fragileSuffix l}")
     | _, _, _, _ => (st, "bad-op")
   | "adia" :: id :: rest =>
     match st.find id, ratsField? rest "n", ratField? rest "H0", ratField? rest "Hgot", ratField? rest "Q", ratField? rest "eps" with
     | some d, some n, some H0, some Hgot, some Q, some eps =>
       let S := nSpecies st.pkg d.phases
       if n.length ≠ S then (st, "bad-op") else
-      match adiabatic tolF st.pkg d.basis S d.blocks H0 Q n with
-      | .error e => (st, showErr e)
-      | .ok (n', target) =>
+      let l := reactLenient st.pkg d.basis S d.blocks d.members.length n
+      if l.exactInfeasible && !l.fragile then (st, showErr .infeasible) else
+        -- `adiabatic` of the model on the exact path; on the fragile-infeasible path the same formulas on the clamped flows
+        let (n', target) := match adiabatic tolF st.pkg d.basis S d.blocks H0 Q n with
+          | .ok p => p
+          | .error _ => (l.n', (hnet st.pkg S H0 n + Q) - hfStream st.pkg S l.n')
         let Hnet0 := hnet st.pkg S H0 n
         let Hnet1 := hnet st.pkg S Hgot n'
         let resid := Hnet1 - (Hnet0 + Q)
@@ -168,7 +210,7 @@ def step (st : St) (line : String) : St × String :=
         -- the theorem `adiabatic_balance` says |resid| ≤ eps whenever the hypothesis holds
         let thm := if hyp == "ok" && !(absR resid ≤ eps) then " BROKEN" else ""
         let sc := scaleOf st.pkg S n [H0, Hgot, Q] + scaleOf st.pkg S n' []
-        (st, s!"n={showRats n'} target={showRat target} Hnet0={showRat Hnet0} Hnet1={showRat Hnet1} resid={showRat resid} sc={showRat sc} hyp={hyp}{thm}")
+        (st, s!"n={showRats n'} target={showRat target} Hnet0={showRat Hnet0} Hnet1={showRat Hnet1} resid={showRat resid} sc={showRat sc} hyp={hyp}{thm}{fragileSuffix l}")
     | _, _, _, _, _, _ => (st, "bad-op")
   | _ => (st, "bad-op")
 
